@@ -331,3 +331,246 @@ pub async fn execute(h: &Harness, seed: u64, clients: &[Client]) -> R<RunOutcome
         log_digest: h2,
     })
 }
+
+// ---------------------------------------------------------------------------
+// Poll-level schedules ("t5p"): the clients' futures are not tokio tasks but are polled,
+// dropped (cancelled) and released by the simulator one seeded action at a time, so that a
+// cancellation can land in any window of a request's life - e.g. after the dispatcher has
+// handed it the turn but before the request is polled again. The pool's own dispatcher
+// task runs whenever the simulator yields; time is virtual.
+
+#[derive(Serialize, Deserialize, Clone, Debug, PartialEq)]
+#[serde(tag = "act")]
+pub enum Act {
+    Start { class: u8 },
+    Poll { i: usize },
+    Cancel { i: usize },
+    Release { i: usize },
+    Yield { n: u8 },
+    Advance { ms: u64 },
+}
+
+pub fn generate_acts(seed: u64) -> Vec<Act> {
+    let mut r = Rng::new(seed).fork("t5p");
+    let n = r.range(10, 80);
+    let p_cancel = if r.chance(0.7) { 0.05 + r.f64() * 0.2 } else { 0.0 };
+    let mut out = vec![];
+    for _ in 0..n {
+        let x = r.f64();
+        out.push(if x < 0.18 {
+            Act::Start { class: r.weighted(&[3, 4, 3]) as u8 }
+        } else if x < 0.50 {
+            Act::Poll { i: r.usize_below(12) }
+        } else if x < 0.50 + p_cancel {
+            Act::Cancel { i: r.usize_below(12) }
+        } else if x < 0.75 {
+            Act::Release { i: r.usize_below(12) }
+        } else if x < 0.95 {
+            Act::Yield { n: r.range(1, 4) as u8 }
+        } else {
+            Act::Advance { ms: *r.pick(&[1u64, 10, 1_000, 100_000]) }
+        });
+    }
+    out
+}
+
+struct Flag(std::sync::atomic::AtomicBool);
+impl std::task::Wake for Flag {
+    fn wake(self: Arc<Self>) {
+        self.0.store(true, std::sync::atomic::Ordering::SeqCst);
+    }
+}
+
+type ConnFut = std::pin::Pin<Box<dyn std::future::Future<Output = Result<klukai_types::agent::WriteConn, klukai_types::agent::PoolError>> + Send>>;
+
+enum Slot {
+    Waiting { fut: ConnFut, flag: Arc<Flag>, polled: bool },
+    Holding(klukai_types::agent::WriteConn),
+    Gone,
+}
+
+pub async fn execute_acts(h: &Harness, seed: u64, acts: &[Act]) -> R<RunOutcome> {
+    use std::future::Future;
+    let mut stats = Stats::default();
+    let mut violation: Option<Violation> = None;
+    let mut slots: Vec<(u8, Slot)> = vec![];
+    let mut log: Vec<String> = vec![];
+    let poll_one = |slot: &mut (u8, Slot), idx: usize, holders: usize, log: &mut Vec<String>, stats: &mut Stats, violation: &mut Option<Violation>, sema: &Arc<Semaphore>| {
+        let (_, s) = slot;
+        let Slot::Waiting { fut, flag, polled } = s else { return };
+        flag.0.store(false, std::sync::atomic::Ordering::SeqCst);
+        *polled = true;
+        let waker = std::task::Waker::from(flag.clone());
+        let mut cx = std::task::Context::from_waker(&waker);
+        match fut.as_mut().poll(&mut cx) {
+            std::task::Poll::Pending => {}
+            std::task::Poll::Ready(Ok(conn)) => {
+                log.push(format!("grant {idx}"));
+                stats.ev("Grant");
+                if holders > 0 {
+                    violation.get_or_insert(Violation::new("C20", "two-write-connections-at-once", json!({"granted": idx, "holders_before": holders})));
+                }
+                if sema.available_permits() != 0 {
+                    violation.get_or_insert(Violation::new("C20", "write-permit-not-held-with-connection", json!({"granted": idx})));
+                }
+                *s = Slot::Holding(conn);
+            }
+            std::task::Poll::Ready(Err(e)) => {
+                log.push(format!("error {idx}: {e}"));
+                stats.ev("Error");
+                violation.get_or_insert(Violation::new("C20", "request-failed", json!({"id": idx, "error": e.to_string(), "note": "no hold in this run exceeds the 5 minute timeouts"})));
+                *s = Slot::Gone;
+            }
+        }
+    };
+    let mut advanced: u64 = 0;
+    for a in acts {
+        stats.steps += 1;
+        let holders = slots.iter().filter(|(_, s)| matches!(s, Slot::Holding(_))).count();
+        match a {
+            Act::Start { class } => {
+                if slots.len() >= 12 {
+                    continue;
+                }
+                let pool = h.pool.clone();
+                let c = *class;
+                let fut: ConnFut = Box::pin(async move {
+                    match c {
+                        0 => pool.write_priority().await,
+                        1 => pool.write_normal().await,
+                        _ => pool.write_low().await,
+                    }
+                });
+                slots.push((c, Slot::Waiting { fut, flag: Arc::new(Flag(std::sync::atomic::AtomicBool::new(true))), polled: false }));
+                log.push(format!("start {} class {c}", slots.len() - 1));
+                stats.ev("Start");
+            }
+            Act::Poll { i } => {
+                if slots.is_empty() {
+                    continue;
+                }
+                let idx = *i % slots.len();
+                poll_one(&mut slots[idx], idx, holders, &mut log, &mut stats, &mut violation, &h.sema);
+            }
+            Act::Cancel { i } => {
+                if slots.is_empty() {
+                    continue;
+                }
+                let idx = *i % slots.len();
+                if let Slot::Waiting { flag, polled, .. } = &slots[idx].1 {
+                    let woken = flag.0.load(std::sync::atomic::Ordering::SeqCst);
+                    stats.fault(match (*polled, woken) {
+                        (false, _) => "cancelled-before-first-poll",
+                        (true, true) => "cancelled-after-wake-before-poll",
+                        (true, false) => "cancelled-while-parked",
+                    });
+                    slots[idx].1 = Slot::Gone;
+                    log.push(format!("cancel {idx}"));
+                }
+            }
+            Act::Release { i } => {
+                if slots.is_empty() {
+                    continue;
+                }
+                let idx = *i % slots.len();
+                if matches!(slots[idx].1, Slot::Holding(_)) {
+                    slots[idx].1 = Slot::Gone;
+                    log.push(format!("release {idx}"));
+                    stats.ev("Release");
+                }
+            }
+            Act::Yield { n } => {
+                for _ in 0..*n {
+                    tokio::task::yield_now().await;
+                }
+            }
+            Act::Advance { ms } => {
+                // never across the pool's 5 minute timeouts in total: a timeout would be legal then
+                if advanced + ms < 250_000 {
+                    advanced += ms;
+                    tokio::time::sleep(Duration::from_millis(*ms)).await;
+                }
+            }
+        }
+        if violation.is_some() {
+            break;
+        }
+    }
+    // ---- wind down: everything released, every still-waiting request must now be served in
+    // turn (bounded), and a fresh request of each class must be served at once
+    if violation.is_none() {
+        for s in slots.iter_mut() {
+            if matches!(s.1, Slot::Holding(_)) {
+                s.1 = Slot::Gone;
+            }
+        }
+        for c in 0..3u8 {
+            let pool = h.pool.clone();
+            let fut: ConnFut = Box::pin(async move {
+                match c {
+                    0 => pool.write_priority().await,
+                    1 => pool.write_normal().await,
+                    _ => pool.write_low().await,
+                }
+            });
+            slots.push((c, Slot::Waiting { fut, flag: Arc::new(Flag(std::sync::atomic::AtomicBool::new(true))), polled: false }));
+        }
+        let mut rounds = 0;
+        loop {
+            rounds += 1;
+            let waiting: Vec<usize> = slots.iter().enumerate().filter(|(_, (_, s))| matches!(s, Slot::Waiting { .. })).map(|(i, _)| i).collect();
+            if waiting.is_empty() {
+                break;
+            }
+            if rounds > 400 {
+                violation = Some(Violation::new(
+                    "C20",
+                    "request-never-served",
+                    json!({"still_waiting": waiting, "classes": waiting.iter().map(|i| slots[*i].0).collect::<Vec<_>>(),
+                           "note": "nobody holds the connection, no timeout elapsed, 400 poll rounds with yields and 10 virtual ms each"}),
+                ));
+                break;
+            }
+            for i in waiting {
+                let holders = slots.iter().filter(|(_, s)| matches!(s, Slot::Holding(_))).count();
+                poll_one(&mut slots[i], i, holders, &mut log, &mut stats, &mut violation, &h.sema);
+                if matches!(slots[i].1, Slot::Holding(_)) {
+                    slots[i].1 = Slot::Gone; // release at once
+                }
+            }
+            for _ in 0..3 {
+                tokio::task::yield_now().await;
+            }
+            tokio::time::sleep(Duration::from_millis(10)).await;
+            if violation.is_some() {
+                break;
+            }
+        }
+    }
+    drop(slots);
+    for _ in 0..5 {
+        tokio::task::yield_now().await;
+    }
+    stats.oracle_checks += 1;
+    let mut sh = 0xcbf2_9ce4_8422_2325;
+    for l in &log {
+        fnv(&mut sh, l.split(' ').next().unwrap_or("").as_bytes());
+    }
+    stats.schedule_hash = sh ^ 0x5a5a;
+    stats.nontrivial = stats.events.get("Grant").copied().unwrap_or(0) >= 2;
+    stats.converged = violation.is_none();
+    let mut h2 = 0xcbf2_9ce4_8422_2325;
+    for l in &log {
+        fnv(&mut h2, l.as_bytes());
+    }
+    Ok(RunOutcome {
+        seed,
+        tier: "t5p".into(),
+        config: json!({}),
+        events: acts.iter().map(|c| serde_json::to_value(c).unwrap()).collect(),
+        violation,
+        known: vec![],
+        stats,
+        log_digest: h2,
+    })
+}
